@@ -1189,12 +1189,13 @@ pub fn check_builder(c: &BCase) -> Outcome {
 }
 
 fn bmp_char() -> impl Strategy<Value = char> {
-    char_strategy().prop_filter_map("bmp", |c| if (c as u32) < 0x10000 && c != '\0' { Some(c) } else { None })
+    // by construction, not by rejection (the thorough tier ran into proptest's reject limit): a non-BMP draw is folded into the CJK block
+    char_strategy().prop_map(|c| if (c as u32) < 0x10000 && c != '\0' { c } else { char::from_u32(0x4E00 + (c as u32) % 0x5000).unwrap_or('一') })
 }
 
 pub fn builder_strategy(astral_percent: u32) -> impl Strategy<Value = BCase> {
     // destination strings: per case either BMP only or with non-BMP characters (steered)
-    let ch = || (bmp_char(), char_strategy().prop_filter("not NUL", |c| *c != '\0'));
+    let ch = || (bmp_char(), char_strategy().prop_map(|c| if c == '\0' { '\u{1}' } else { c }));
     let s1 = ch().prop_map(|(b, a)| (b.to_string(), a.to_string()));
     let sn = prop::collection::vec(ch(), 1..=4).prop_map(|v| {
         let cut = |mut v: Vec<char>| {
